@@ -59,14 +59,20 @@ def heap_dag(rng, n, max_extra_bits=16):
     return nodes
 
 
-def wide_tree(n):
-    """exactly n distinct cells, depth ~log4(n): node i refs nodes 4i+1..4i+4 (heap layout, then reversed)."""
+def wide_tree(n, fat=False):
+    """exactly n distinct cells, depth ~log4(n): node i refs nodes 4i+1..4i+4 (heap layout, then reversed).
+    fat: the root, two inner nodes (4 references each) and the last leaf carry 1023 / 1017 data bits - the LARGEST records a bag can
+    hold, inside a bag whose cell count decides the width of the reference indices (a per-record size bound must hold there too)."""
     # heap index h -> list index n-1-h so that children come first
+    big = {0: 1023, 1: 1017, 5: 1023, n - 1: 1023} if fat else {}
     nodes = []
     for j in range(n):
         h = n - 1 - j
         kids = [n - 1 - c for c in range(4 * h + 1, 4 * h + 5) if c < n]
-        nodes.append((G.ORD, uniq_bits(h), tuple(kids)))
+        bits = uniq_bits(h)
+        if h in big:
+            bits = bits + '1' + '0' * (big[h] - len(bits) - 1) if len(bits) < big[h] else bits
+        nodes.append((G.ORD, bits, tuple(kids)))
     return nodes
 
 
@@ -252,7 +258,7 @@ def cases(ctx, scale=1.0):
         yield f'chain200x{w}', G.chain(200, '', w), None, False
     # cell-count boundaries of the 1-byte size field
     for n in (127, 128, 254, 255, 256, 257):
-        yield f'cells{n}-tree', wide_tree(n), None, False
+        yield f'cells{n}-tree', wide_tree(n, fat=(n in (255, 256))), None, False
         yield f'cells{n}-heap', heap_dag(rng, n, max_extra_bits=8), None, False
     # payload-length boundaries of the offset width (doubled with cache bits)
     for total in (126, 127, 128, 129, 254, 255, 256, 257, 32767, 32768, 65535, 65536):
@@ -268,7 +274,7 @@ def cases(ctx, scale=1.0):
         yield f'medium{t}', heap_dag(rng, n, max_extra_bits=64), None, False
     yield 'large3000', heap_dag(rng, 3000), None, True
     # the 2-byte / 3-byte boundary of the size field (cells = 65536 needs 3 bytes)
-    yield 'cells65536-tree', wide_tree(65536), None, 'flat'
+    yield 'cells65536-tree', wide_tree(65536, fat=True), None, 'flat'
     if ctx.thorough:
         for n in (65535, 65537):
             yield f'cells{n}-tree', wide_tree(n), None, 'flat'       # Lean: byte-level layer only (semantic layer by the Python twin)
